@@ -159,6 +159,12 @@ def ppp_for(draw, d, want, allow_open=True):
     return p
 
 
+# Axis permutation of a tilted cell: coordinates, cell vectors (P H P^T, no longer lower triangular), origin and mask
+# are permuted together.  Every routine that takes the cell from snapshot.hmatrix (g(r), neighbours, bond order,
+# tetrahedral order, S2, dynamics) must be unaffected; S(q) and the Hessian are orthogonal-only and keep ortho=True.
+AXES_TRICLINIC = True
+
+
 def feasible_kinds(allowed, *, N, K, ortho, ppp, d):
     ppp = np.asarray(ppp)
     out = []
@@ -169,7 +175,7 @@ def feasible_kinds(allowed, *, N, K, ortho, ppp, d):
             continue
         if k == "swap" and K < 2:
             continue
-        if k == "axes" and not ortho:
+        if k == "axes" and not ortho and not AXES_TRICLINIC:
             continue
         if k == "rotate" and ppp.any():
             continue
@@ -277,7 +283,6 @@ def apply_tf(case, tf):
     nshift = np.asarray(tf["n"], dtype=float)      # given along the ORIGINAL cell vectors
     if tf["axes"] is not None:
         ax = list(tf["axes"])
-        assert cell["kind"] == "ortho"
         pos = [p[:, ax] for p in pos]
         H = H[ax][:, ax]
         lo = lo[ax]
@@ -301,7 +306,10 @@ def apply_tf(case, tf):
     nt = np.empty_like(types)
     nt[perm] = np.asarray(tf["sigma"], dtype=int)[types - 1]
     new = dict(case)
-    new.update(cell={"d": d, "kind": cell["kind"], "H": H, "lo": lo, "origin": cell.get("origin", "any")},
+    kind = cell["kind"]
+    if tf["axes"] is not None and kind != "ortho":
+        kind = "general"
+    new.update(cell={"d": d, "kind": kind, "H": H, "lo": lo, "origin": cell.get("origin", "any")},
                pos=new_pos, types=nt, ppp=ppp)
     return new
 
